@@ -332,7 +332,7 @@ def pred_session(ops, out):
             if got != want:
                 extra, missing = sorted(got - want), sorted(want - got)
                 return (f"federation tree differs from the events applied once in order: unexpected {extra[:3]}, missing {missing[:3]}"
-                        + (" (entries of a node survive / vanish at its clean start: F19)" if any(e[1] for e in extra + missing) else ""))
+                        )
             if int(m.group(4)) != pubs:
                 return f"dump reports {m.group(4)} publishes, {pubs} were echoed"
     return None
@@ -481,6 +481,13 @@ def gen_sim(rng):
     lost_hello = rng.random() < 0.35
     if rng.random() < 0.1:
         ops.append("cut-open")
+    def racing_hook():
+        # another client's subscribe / unsubscribe that runs INSIDE the next clean start: when the queue is about to be cleared,
+        # or between the clear and the snapshot of the local topics
+        return (f"{rng.choice(['at-clear', 'after-clear'])} {rng.choice(['lsub', 'lsub', 'lunsub'])} "
+                f"c{rng.randint(1, 3)} {rng.choice(topics)}")
+    if rng.random() < 0.3:
+        ops.append(racing_hook())
     ops.append("connect")
     for _ in range(rng.randint(2, rng.choice([6, 14, 30]))):
         r = rng.random()
@@ -505,6 +512,8 @@ def gen_sim(rng):
                 ops.append("cut-hello-resp")                        # R processes the next Hello, the response is lost
             elif rng.random() < 0.1:
                 ops.append("cut-hello-req")                         # the next Hello does not reach R
+            if rng.random() < 0.5:
+                ops.append(racing_hook())
             ops.append(rng.choice(["peer-restart", "sender-restart"]))
         else:
             ops.append("settle")
@@ -544,10 +553,10 @@ def pred_sim(ops, out):
     return None
 
 def nontriv_sim(ops, out):
-    """a fault (cut after send / before ack / at open / break / restart) followed by further emitted events"""
+    """a fault (cut after send / before ack / at open / break / restart / hook racing with a clean start) followed by further emitted events"""
     cut = False
     for op in ops:
-        if op.startswith("cut-") or op in ("break", "peer-restart", "sender-restart"):
+        if op.startswith("cut-") or op.startswith("at-clear") or op.startswith("after-clear") or op in ("break", "peer-restart", "sender-restart"):
             cut = True
         elif cut and (op.startswith("lsub") or op.startswith("pub")):
             return True
@@ -575,7 +584,7 @@ RULE = ("fedqueue: random add/fetch/ack/setpos/clear/close/open histories on the
         "LRU summary, federation tree, retained store, publish log; localsubs: sub/unsub/terminate through the real hook wrappers, "
         "emitted events read back from the real peer queues; fedsim: two real Federation values connected by the real "
         "initStream/serve/EventStream loops over an in-memory stream with cuts after the n-th send, before the n-th ack, at stream open, "
-        "after Hello processing (answer lost), before Hello reaches the peer, peer and sender restarts; the oracle executes the protocol transition system the theorems are about. non-trivial = fedqueue: a reconnect moves the cursor back and a fetch re-sends; "
+        "after Hello processing (answer lost), before Hello reaches the peer, peer and sender restarts, and subscribe/unsubscribe hooks injected into the clean start at the entry of queue.clear() and right after it; the oracle executes the protocol transition system the theorems are about. non-trivial = fedqueue: a reconnect moves the cursor back and a fetch re-sends; "
         "fedsession: a resumed session re-receives an applied event; localsubs: a shared reference count goes 2→1 silently then 1→0 with an event; "
         "fedsim: a cut followed by further events")
 ASSUME = ["one live stream per (sender, receiver) pair at a time: a node says Hello only after its previous stream has ended on both sides "
